@@ -1323,10 +1323,18 @@ def latency_jobs(tier, rng):
     # enqueue), through a single batcher (forward boundaries or parallelism 1), after the source went idle
     forced = [("adaptive:1000:20000", 1, 1, "single_path"), ("adaptive:64:20000", 2, 3, "single_path"),
               ("adaptive:1000:20000", 3, 2, "single_path")]
-    plan = [(m, d, p, "mixed") for (m, d, p) in chosen] + forced
+    # two-input blocks: a finite stream merged with the live one; once the finite side has ended the block must still
+    # notice idle periods (its receive timeout is what makes End flush)
+    two = [("adaptive:1000:20000", 1, 1, "merge_l"), ("adaptive:1000:20000", 2, 2, "merge_r"),
+           ("adaptive:64:20000", 1, 3, "merge_l"), ("adaptive:1000:20000", 1, 2, "merge_l")]
+    plan = [(m, d, p, "mixed") for (m, d, p) in chosen] + forced + two
     for i, (mode, depth, par, shape) in enumerate(plan):
         nodes = [{"id": "s", "op": "src", "kind": "channel", "cap": 1024}]
         cur = "s"
+        if shape in ("merge_l", "merge_r"):
+            nodes.append({"id": "f", "op": "src", "kind": "iter", "data": [100000, 100001, 100002]})
+            nodes.append({"id": "mg", "op": "merge", "in": ["f", "s"] if shape == "merge_l" else ["s", "f"]})
+            cur = "mg"
         for d in range(depth):
             nodes.append({"id": f"m{d}", "op": "map", "f": "inc", "in": [cur]})
             # a forward connection is legal only towards equally many or a single replica
@@ -1334,8 +1342,10 @@ def latency_jobs(tier, rng):
             nodes.append({"id": f"x{d}", "op": opk, "repl": "one", "in": [f"m{d}"]})
             cur = f"x{d}"
         nodes.append({"id": "k", "op": "sink", "kind": "collect_channel", "in": [cur]})
-        k = 1 if shape == "single_path" else rng.choice([1, 2, 5])
+        k = 1 if shape == "single_path" else (rng.choice([2, 5]) if shape.startswith("merge") else rng.choice([1, 2, 5]))
         pauses = [0, 6, 7, 9, 40, 5] if shape == "single_path" else rng.choice([[0, 6], [30, 5, 9], [0, 40, 7], [0, 5, 120], [60, 8]])
+        if shape.startswith("merge"):
+            pauses = [300, 5, 200, 7]      # the finite side has long ended when the first burst arrives
         if tier != "quick" and i >= 18 and shape != "single_path":
             pauses = [rng.choice([0, 3, 5, 6, 7, 9, 15, 30, 40, 60, 120]) for _ in range(rng.randint(2, 6))]
         feed = []
@@ -1385,6 +1395,8 @@ def C18(V, tier):
             if ev == "job":
                 recs.append({"ev": "job", "id": e["id"], "adaptive": bool(e.get("meta", {}).get("adaptive"))})
             elif ev in ("fed", "arrive"):
+                if ev == "arrive" and isinstance(e.get("v"), int) and e["v"] >= 50000:
+                    continue      # elements of the finite side of a merge shape: not handed to the channel source
                 recs.append({"ev": ev, "v": e["v"]})
             elif ev == "close":
                 recs.append({"ev": "close"})
